@@ -118,6 +118,16 @@ inductive Act where
   | digest (depthCheck : Bool) -- `item.digest(tokens)`, then (if flagged) the context-depth test, then append
   deriving DecidableEq, Repr
 
+/-- `List.item` and its subclasses: the only elements with a `container` attribute (`List`) -/
+def isItemKind : Kind → Bool
+  | .item _ => true
+  | _ => false
+
+/-- `isinstance(self, List)` for the absorbing environment -/
+def isListKind : Kind → Bool
+  | .begin_ .list _ => true
+  | _ => false
+
 /-- decision of each loop on the next stream entry, conditions in source order -/
 def classify (m : Mode) (self : Tok) (it : Node) : Act :=
   match m with
@@ -125,7 +135,11 @@ def classify (m : Mode) (self : Tok) (it : Node) : Act :=
     if it.kind.level == PAR_LEVEL then .append
     else if it.kind.level < self.kind.level then .stopPush
     else if it.kind.isElement then
-      if isEndOf it.kind self.kind then .stopEat else .digest true
+      if isEndOf it.kind self.kind then .stopEat
+      -- `container = getattr(item, 'container', None); if container is not None and not isinstance(self, container)`:
+      -- an `\item` (container = List) ends every environment that is not a list (a declaration, `center`, …)
+      else if isItemKind it.kind && !isListKind self.kind then .stopPush
+      else .digest true
     else if it.depth < self.depth then .stopPush else .append
   | .until_ e =>
     if it.kind.isElement then
